@@ -81,6 +81,24 @@ CHECKS = {
              "corpus), Lean kernel for its theorems. Recorded findings: KF-B, KF-C, one corpus file.",
         technique="Lean 4 parser as executable grammar (with proved tail rule) + enumeration through the real learner",
     ),
+    "C06": dict(
+        category="model_checking",
+        text="The property's quantifier is finite. Lean enumerates it (O2P.Gate.domain: unordered alternating gate trees "
+             "over n distinct events, depth <= 3) with kernel-checked facts: 3, 21, 243, 2 493 trees for n = 2..5 "
+             "(domain_counts), every one well-formed (domain_wellformed), 112 / 943 of them in the exactness sub-class "
+             "(subclass_counts); soundB/exactB decide the two clauses (soundB_iff, exactB_iff). The real "
+             "calculate_logic_gates is run on the complete outcome family of EVERY tree (quick: all n <= 4 and a seeded "
+             "third of n = 5; thorough: all n <= 5 and a seeded twelfth of n = 6) under 2-4 interpreter hash seeds in "
+             "separate processes, and Lean judges every returned tree: soundness everywhere, exactness on the sub-class. "
+             "NOT a proof about the function: pm4py's inductive miner and the post-processing are not modelled in Lean "
+             "(DESIGN.md §5 C06 explains why and what a model would need); the finite quantifier is discharged by "
+             "exhaustive execution of the real code with a proved enumerator and proved deciders.",
+        ref="DESIGN.md §5 C06",
+        note="Trusted: Lean kernel for the enumerator/decider theorems (no axioms beyond propext, Quot.sound); pm4py, "
+             "pandas and the janus-free import path exercised as they are.",
+        technique="Lean 4 kernel-checked enumeration of the finite domain + proved deciders; exhaustive execution of the real "
+                  "function over the domain under several hash seeds (explicit-state checking, not a proof of the code)",
+    ),
     "C07": dict(
         category="proof",
         text="Lean theorems make certificate checkers decide the property's clauses on the INPUT directly-follows "
